@@ -6,7 +6,7 @@ import lib
 ID = "C15"
 PROP_FILE = "props/C15.v"
 COQ_TARGETS = ["props/C15.v"]
-THEOREMS = ["C15_result_partial", "C15_result_passthrough", "C15_result_refuted", "C15_raises", "C15_clean"]
+THEOREMS = ["C15_same_mapping", "C15_same_mapping_raises", "C15_result_partial", "C15_result_passthrough", "C15_result_refuted", "C15_raises", "C15_clean"]
 TRUSTED_BASE = [
     "Coq 8.16.1 kernel, vm_compute for the in-coqc correspondence",
     "model/Sandbox.v: hand transcription of the scaffold of tracer.exec; the spliced program is abstracted as its sequence of local/global "
@@ -27,6 +27,11 @@ XNAMES = {i: n for i, n in enumerate(["class", "a b", "None", "__debug__"], star
 def gen_case(rng, reserved=False):
     L = {NAMES[k]: rng.randrange(0, 50) for k in rng.sample(sorted(NAMES), rng.randrange(0, 4))}
     G = {GNAMES[k]: rng.randrange(50, 99) for k in rng.sample(sorted(GNAMES), rng.randrange(0, 3))}
+    # same: locals IS globals - one mapping object (what exec uses at module level without mappings, or with only globals given)
+    same = not reserved and rng.random() < 0.3
+    if same:
+        L.update(G)
+        G = L
     gdecl = [GNAMES[k] for k in sorted(GNAMES) if rng.random() < 0.4]
     if rng.random() < 0.3:
         # `global <a supplied local name>` (with the default mappings, locals is globals, this is every existing global): the local is handed back unchanged
@@ -73,7 +78,7 @@ def gen_case(rng, reserved=False):
     ids = [n for n in sorted(L) if n not in XNAMES.values()]
     if rng.random() < 0.4 and ids:
         expr = " + ".join(rng.sample(ids, min(len(ids), 2)) + [str(rng.randrange(9))])
-    return {"L": L, "G": G, "text": text or "pass", "ops": ops, "raise_at": raise_at, "instrument": rng.random() < 0.7, "gdecl": gdecl,
+    return {"L": L, "G": G, "text": text or "pass", "ops": ops, "raise_at": raise_at, "instrument": rng.random() < 0.7, "gdecl": gdecl, "same": same,
             "tracer": rng.choice(["obs", "obs", "noop"]), "expr": expr, "reserved": reserved}
 
 
@@ -121,8 +126,11 @@ def coq_cases_file(cases):
         if c.get("reserved"):
             ops.append("Bind 1%N 5%Z")
         ra = "None" if c["raise_at"] is None else "(Some %d%%nat)" % c["raise_at"]
-        L.append("Eval vm_compute in exec_model %s %s {| ops := [%s]; raises_after := %s; gdecl := [%s] |}."
-                 % (coq_assoc(c["L"]), coq_assoc(c["G"]), "; ".join(ops), ra, "; ".join("%d%%N" % INV[n] for n in c.get("gdecl", []))))
+        prog = "{| ops := [%s]; raises_after := %s; gdecl := [%s] |}" % ("; ".join(ops), ra, "; ".join("%d%%N" % INV[n] for n in c.get("gdecl", [])))
+        if c.get("same"):
+            L.append("Eval vm_compute in (let r := exec_same %s %s in (fst r, snd r, snd r))." % (coq_assoc(c["L"]), prog))
+        else:
+            L.append("Eval vm_compute in exec_model %s %s %s." % (coq_assoc(c["L"]), coq_assoc(c["G"]), prog))
     return "\n".join(L) + "\n"
 
 
@@ -164,7 +172,10 @@ def oracle_case(c, im):
         return {"what": "returned mapping differs from the function-body reference", "expected": ref["result"], "observed": im["result"], "where": "result"}
     if ref["G"] != im["G"]:
         return {"what": "globals differ from the function-body reference", "expected": ref["G"], "observed": im["G"], "where": "G"}
-    if im["L"] != c["L"]:
+    if c.get("same"):
+        if im["L"] != im["G"]:
+            return {"what": "locals is globals, yet the two differ afterwards", "where": "L"}
+    elif im["L"] != c["L"]:
         return {"what": "the caller's local mapping was changed", "expected": c["L"], "observed": im["L"], "where": "L"}
     if "eval" in im:
         if im["eval"] != im["eval_ref"]:
@@ -230,7 +241,7 @@ def run(ctx, model_ok):
                 "expression for eval in 40% of cases; one case binding the reserved name `builtins`; non-trivial = >=2 operations",
         "samples": [{k: cases[1][k] for k in ("L", "G", "text", "instrument", "tracer", "expr")}], "traces_validated": validated,
         "distribution": {"raising": sum(1 for c in cases if c["raise_at"] is not None), "instrumented": sum(1 for c in cases if c["instrument"]),
-                         "with_eval": sum(1 for c in cases if c["expr"]),
+                         "with_eval": sum(1 for c in cases if c["expr"]), "locals_is_globals": sum(1 for c in cases if c.get("same")),
                          "global_declares_a_supplied_local": sum(1 for c in cases if any(n in c["L"] for n in c.get("gdecl", []))),
                          "keys_that_cannot_be_parameters": sum(1 for c in cases if any(n in XNAMES.values() for n in c["L"]))},
         "failures": failures, "extra": {"model_impl_disagreements": len(mism)},
